@@ -753,8 +753,10 @@ def sprintf(I, st, fmt, args):
         if i >= n:
             states = [(s, acc + tuple(b'%!(NOVERB)')) for s, acc in states]
             break
+        fs_ = i
         while i < n and f[i] in b'+-# 0123456789.':
             i += 1
+        flags = f[fs_:i].decode()
         verb = chr(f[i])
         i += 1
         if verb == '%':
@@ -765,10 +767,18 @@ def sprintf(I, st, fmt, args):
             continue
         a = args[ai]
         ai += 1
+        left = '-' in flags
+        zero = flags.startswith('0') or ('0' in flags and flags.lstrip('+-# ').startswith('0'))
+        wtxt = flags.lstrip('+-# 0').split('.')[0]
+        width = int(wtxt) if wtxt.isdigit() else 0
         nxt = []
         for s, acc in states:
             for s2, txt in fmt_value(I, s, a, verb):
-                nxt.append((s2, acc + tuple(txt)))
+                t = tuple(txt)
+                if width > len(t):
+                    pad = ((48,) if (zero and not left) else (32,)) * (width - len(t))
+                    t = t + pad if left else pad + t
+                nxt.append((s2, acc + t))
         states = nxt
     return [(s, Str(acc)) for s, acc in states]
 
@@ -881,6 +891,7 @@ def _strconv_formatuint(I, st, args):
 from . import reflectmodel  # noqa: E402  (registers the reflect models)
 from . import osmodel  # noqa: E402  (registers the filesystem model)
 from . import pgpmodel  # noqa: E402  (idealised OpenPGP)
+from . import archmodel  # noqa: E402  (abstract codecs and tar)
 
 
 # time (uninterpreted) ---------------------------------------------------------------------
